@@ -133,6 +133,23 @@ def check(ctx):
     episodes = C.load_corpus(ID) + [gen_episode(ctx.rng, ctx.thorough()) for _ in range(nep)]
     episodes += [hash_episode(ctx.rng, 200000 if ctx.thorough() else 20000)]
     bad = d.check(episodes, oracle=lambda e, o: oracle(e, o) if e[0].startswith("lb new") else [], label="hash")
+    # affinity through the handler cmd/helios builds (request-context middleware with and without identifiers,
+    # plugin chain): one client address on many connections must keep its backend
+    aff = [["aff %s %d %d %d %d" % (st, nb, ids, pl, 40 if not ctx.thorough() else 200)]
+           for st in ("ip_hash", "ip_hash_consistent") for nb, ids, pl in ((3, 1, 0), (5, 0, 0), (4, 1, 1), (2, 0, 1))]
+
+    def aff_oracle(ep, outs):
+        o = outs[0] if outs else ""
+        f = dict(t.split("=") for t in o.split()[1:] if "=" in t)
+        bad = ["%s=%s" % (k, v) for k, v in f.items() if v != "1"]
+        return ["one client identity is served by several backends (or not at all) through the front end: %s (%s)" % (" ".join(bad), ep[0])] if bad or not o.startswith("aff ") else []
+    from . import c03
+    C.Differential(ctx, c03.build(ctx), timeout=300).check(aff, oracle=aff_oracle, label="hash-front")
+    ctx.cov["front_end_affinity_episodes"] = len(aff)
+    # the backends are added in the order the file lists them (jump hash buckets are positions in that order)
+    from .. import cfgfid
+    from . import c03
+    cfgfid.check(ctx, C.Differential(ctx, c03.build(ctx), timeout=300), n=40 if ctx.thorough() else 10)
     moved = 0
     nontriv = set()
     if bad == 0:
